@@ -498,8 +498,11 @@ func (d *DTable) exec(stmts []ast.Stmt, as map[string]int) (string, bool) {
 				return "", false
 			}
 		case *ast.ExprStmt:
-			if c, ok := x.X.(*ast.CallExpr); ok && isNoReturnCall(d.info, c) {
-				return "panic", true
+			if c, ok := x.X.(*ast.CallExpr); ok {
+				if isNoReturnCall(d.info, c) {
+					return "panic", true
+				}
+				continue // a call made for its outputs; does not influence which value is returned
 			}
 			d.Err = "unsupported expression statement " + types.ExprString(x.X)
 			return "", false
